@@ -62,6 +62,19 @@ def setup(tier):
     # JIT-compile compute_update once in the parent so that forked workers inherit the compiled code
     from pero_ocr.core.force_alignment import force_align
     force_align(np.asarray([[0.1, 2.0], [2.0, 0.1]]), [0], 1)
+    # conformance of the dynamic-programming reference (used for long lines only) with brute force on every matrix of <= 3 rows
+    for T in (1, 2, 3):
+        for idx in itertools.product(range(len(ROWS3)), repeat=T):
+            M = [ROWS3[i] for i in idx]
+            for blank in range(3):
+                best = brute(M, blank)
+                for lab in label_space(3, T, blank):
+                    if blank in lab:
+                        continue
+                    w, g = best.get(tuple(lab), INF), dp_min_cost(M, lab, blank)
+                    if not (w == g or abs(w - g) < 1e-9):
+                        from mc.core import HarnessError
+                        raise HarnessError(f'DP reference disagrees with brute force on {M} {lab} {blank}: {g} vs {w}')
 
 
 def shards(tier):
@@ -82,13 +95,58 @@ def shards(tier):
     # a 300-symbol output layer (blank = 299) with the labels held in small-integer numpy arrays
     for t in range(1, b['Tdtype'] + 1):
         out.append({'C': 300, 'T': t, 'prefix': []})
+    # long lines: more than 255 frames / more than 127 labels (decided against a dynamic-programming reference, not brute force)
+    for T in LONG_T[tier if tier in LONG_T else 'quick']:
+        out.append({'long': T})
     return out
+
+
+LONG_T = {'quick': [260, 300], 'thorough': [260, 300, 520, 1030]}
+
+
+def dp_min_cost(M, labels, blank):
+    """textbook forced-alignment DP over the state chain blank l1 blank l2 ... blank: minimum total cost, INF if none"""
+    states = [blank]
+    for l in labels:
+        states += [l, blank]
+    S, T = len(states), len(M)
+    cur = [INF] * S
+    cur[0] = M[0][states[0]]
+    if S > 1:
+        cur[1] = M[0][states[1]]
+    for t in range(1, T):
+        nxt = [INF] * S
+        for k in range(S):
+            best = cur[k]
+            if k >= 1 and cur[k - 1] < best:
+                best = cur[k - 1]
+            if k >= 2 and states[k] != blank and states[k] != states[k - 2] and cur[k - 2] < best:
+                best = cur[k - 2]
+            if best < INF:
+                nxt[k] = best + M[t][states[k]]
+        cur = nxt
+    return min(cur[-1], cur[-2]) if S > 1 else cur[-1]
+
+
+def long_cases(T):
+    rows = [r for r in ROWS3 if INF not in r]
+    M = [rows[(t * 5 + t // 7) % len(rows)] for t in range(T)]
+    yield M, [t % 2 for t in range(T // 2 - 3)]          # nearly as many labels as fit (no repeats): > 127 labels
+    yield M, [0, 0] * (T // 4 - 2)                        # doubled labels need separating blanks
+    yield M, [1]                                          # one label on a long line
+    yield M, [0, 1] * 40 + [1, 1, 0]
+    yield M, [t % 2 for t in range(T // 2 + 1)]           # fits exactly or not at all (2L-1 <= T)
+    yield M, [0] * (T // 2 + 2)                           # does not fit (needs 2L-1 frames)
 
 
 def run_shard(shard, ctx, tier):
     from mc.core import guarded_check
     import sys
     mod = sys.modules[__name__]
+    if 'long' in shard:
+        for k in range(6):
+            guarded_check(mod, {'long': shard['long'], 'k': k}, ctx)
+        return
     C, T, prefix = shard['C'], shard['T'], shard['prefix']
     dt = shard.get('dtype', 'f64')
     R = len(rows_for(C, dt))
@@ -134,8 +192,61 @@ def label_space(C, T, blank):
         yield list(lab)
 
 
+def check_long(case, ctx):
+    from pero_ocr.core.force_alignment import force_align, align_text
+    T, blank = case['long'], 2
+    M, labels = list(long_cases(T))[case['k']]
+    A = np.asarray(M, dtype=np.float64)
+    want = dp_min_cost(M, labels, blank)
+    ctx.state(('long', T, case['k']))
+    ctx.tag('more-than-255-frames')
+    K = f'{ID}/long'
+    desc = f'{T} frames, {len(labels)} labels ({labels[:6]}...), cost rows cycling through the 3-symbol alphabet'
+    ctx.executed()
+    try:
+        got = [int(x) for x in force_align(A.copy(), list(labels), blank)]
+    except ValueError as e:
+        if want < INF:
+            ctx.violation('failure-iff-no-alignment', f'{K}/force_align/false-failure', f'{desc}: ValueError({e}) although an alignment of cost {want} exists')
+        ctx.outcome(('long-fail',))
+        return
+    if want == INF:
+        ctx.violation('failure-iff-no-alignment', f'{K}/force_align/missed-failure', f'{desc}: returned a path although no alignment exists')
+        return
+    if len(got) != T or list(collapse(got, blank)) != list(labels):
+        ctx.violation('collapses-to-labels', f'{K}/force_align/not-collapsing', f'{desc}: the returned path ({len(got)} frames) does not collapse to the labels')
+        return
+    cost = sum(M[t][sy] for t, sy in enumerate(got))
+    if abs(cost - want) > 1e-6:
+        ctx.violation('minimum-cost', f'{K}/force_align/suboptimal', f'{desc}: cost {cost}, dynamic-programming minimum {want}')
+        return
+    pos = [int(x) for x in align_text(A.copy(), np.asarray(labels), blank)]
+    seq = [int(x) for x in force_align(A.copy(), list(labels), blank, return_seq_positions=True)]
+    ctx.executed(2)
+    conf = (-A).max(axis=-1)
+    frames = {}
+    for t, i in enumerate(seq):
+        if i >= 0:
+            frames.setdefault(i, []).append(t)
+    bad = None
+    if len(pos) != len(labels) or any(a >= b for a, b in zip(pos, pos[1:])):
+        bad = f'positions not strictly increasing ({pos[:8]}...)'
+    else:
+        for i in range(len(labels)):
+            if pos[i] not in frames.get(i, []) or conf[pos[i]] < max(conf[t] for t in frames[i]) - 1e-12:
+                bad = f'position {pos[i]} of character {i} is not the most confident of its frames {frames.get(i)}'
+                break
+    if bad:
+        ctx.violation('positions-most-confident-frame', f'{K}/align_text', f'{desc}: {bad}')
+        return
+    ctx.outcome(('long', T, len(labels)))
+    ctx.nontrivial(('long', T, case['k']))
+
+
 def check_case(case, ctx):
     from pero_ocr.core.force_alignment import force_align, align_text
+    if 'long' in case:
+        return check_long(case, ctx)
     C, rows, blank = case['C'], case['rows'], case['blank']
     dt = case.get('dtype', 'f64')
     RA = rows_for(C, dt)
@@ -298,6 +409,6 @@ def describe(tier):
                         'ties: any minimum-cost alignment and any most-confident frame is accepted',
                         'per-frame confidence = max over symbols of the frame (as stated: "where the network is most confident")'],
         'min_nontrivial': 100,
-        'required_tags': ['unusual-cost-magnitudes', 'repeated-label-aligned', 'multi-frame-char-with-distinct-confidences', 'only-infinite-alignments',
+        'required_tags': ['more-than-255-frames', 'unusual-cost-magnitudes', 'repeated-label-aligned', 'multi-frame-char-with-distinct-confidences', 'only-infinite-alignments',
                           'non-float64-cost-matrices', 'wide-alphabet-small-int-labels'],
     }
